@@ -316,6 +316,9 @@ def _store_array(
                 raise ValueError(
                     f"Region {region} does not align with target chunks {chunks}"
                 )
+        # each task copies one source chunk into one target chunk, so within the
+        # region the source must be chunked like the target (a no-op if it already is)
+        source = source.rechunk(tuple(chunks))
         block_offsets = [
             (0 if sl.start is None else sl.start // cs)
             for sl, cs in zip(region, chunks)
